@@ -293,8 +293,12 @@ def patchTable (n : String) (f t : Option Table) : List Stmt :=
     if ft = tt then [] else
     schemaStmts n ft.cols tt.cols ++ (diffTables (some ft) (some tt)).flatMap (dataStmt n ft.cols tt.cols)
 
+/-- `PatchTableFunction.PartitionRows` sorts the table deltas by their *to* name, so dropped tables
+(empty to-name) come first, each group ascending in the name. -/
 def patch (a b : Root) : List Stmt :=
-  (unionKeys ltStr (keys a) (keys b)).flatMap (fun n => patchTable n (get a n) (get b n))
+  let names := unionKeys ltStr (keys a) (keys b)
+  (names.filter (fun n => !(has b n))).flatMap (fun n => patchTable n (get a n) (get b n)) ++
+  (names.filter (fun n => has b n)).flatMap (fun n => patchTable n (get a n) (get b n))
 
 /-- replace the cell of the column called `name` -/
 def setCell : List Col → Row → String → Val → Row
